@@ -1,7 +1,9 @@
 (* Model/C14SpPath.v — the re-keying inside sptensor.nvecs as the code runs it (pyttb/sptensor.py, nvecs; after /repo f3d6beb, which
    repaired finding C14-F2: a second reshape instead of squeeze()):
+     if not 0 <= n < self.ndims: assert False                                (/repo 453f75b)
      old      = np.setdiff1d(np.arange(self.ndims), n)
      reshaped = self.copy().reshape((prod(shape[old]), 1), old)              shape (I_n, K, 1)
+                self.copy().reshape((shape[n], 1, 1))  when old is empty     shape (I_n, 1, 1)   (/repo c11bcb2)
      all(s == 1 for s in reshaped.shape): ValueError("... only singleton dimensions")
      M        = reshaped.reshape(reshaped.shape[:2])                         shape (I_n, K); old_modes = None: all modes
      tnt = M.spmatrix().transpose();   y = tnt.transpose().dot(tnt)
@@ -78,12 +80,20 @@ Definition sp_nvecs_tnt_old (S : sparse V) (n : nat) : option (coo V) :=
   | None => None
   end.
 
-(* tnt of sptensor.nvecs as the code runs it now; None = the request is refused (AssertionError of reshape / spmatrix, ValueError
-   when every mode of the reshaped tensor is a singleton).  `reshape(new_shape)` without old_modes reshapes ALL modes:
-   old_modes = np.arange(ndims), keep_modes = [] *)
+(* tnt of sptensor.nvecs as the code runs it now (after /repo 453f75b: mode range test first, finding C19-N23 repaired; after /repo
+   c11bcb2: a 1-way tensor — old = [] — is reshaped to (I_n, 1, 1) over ALL modes instead of reshape((1, 1), []), finding C14-F3
+   repaired).  None = the request is refused (AssertionError of the mode test / reshape / spmatrix, ValueError when every mode of the
+   reshaped tensor is a singleton).  `reshape(new_shape)` without old_modes reshapes ALL modes: old_modes = np.arange(ndims),
+   keep_modes = [] *)
 Definition sp_nvecs_tnt (S : sparse V) (n : nat) : option (coo V) :=
-  let old := setdiff_modes (length (sshape S)) [n] in
-  match sp_reshape_gen S [size (pick 0 old (sshape S)); 1] old with
+  let N := length (sshape S) in
+  if negb (n <? N) then None                               (* `if not 0 <= n < self.ndims: assert False` *)
+  else
+  let old := setdiff_modes N [n] in
+  match (match old with
+         | [] => sp_reshape_gen S [nth n (sshape S) 0; 1; 1] (seq 0 N)                        (* old.size == 0 *)
+         | _ :: _ => sp_reshape_gen S [size (pick 0 old (sshape S)); 1] old
+         end) with
   | Some R =>
       if forallb (Nat.eqb 1) (sshape R) then None
       else match sp_reshape_gen R (firstn 2 (sshape R)) (seq 0 (length (sshape R))) with
@@ -92,6 +102,10 @@ Definition sp_nvecs_tnt (S : sparse V) (n : nat) : option (coo V) :=
            end
   | None => None
   end.
+
+(* the request as Python receives it: n is an integer, negative values are refused by the same test *)
+Definition sp_nvecs_tnt_z (S : sparse V) (n : Z) : option (coo V) :=
+  if (0 <=? n)%Z then sp_nvecs_tnt S (Z.to_nat n) else None.
 
 (* (row, column, value) triples of a COO matrix *)
 Definition coo_triples (C : coo V) : list (nat * nat * V) :=
